@@ -52,7 +52,13 @@ func H_l3_size_rel() {
 	if vParamDef("pre", 0) > 0 {
 		// the size of an index is a function of its key set, not of what was built before it
 		big := vSweep(vParam("pre"))
-		_, err3 := NewSlimTrie(encode.Dummy{}, big, nil)
+		var err3 error
+		if po := vParamDef("preopt", -1); po >= 0 {
+			// ... nor of the options an earlier build was given
+			_, err3 = NewSlimTrie(encode.Dummy{}, big, nil, vOptCase(po))
+		} else {
+			_, err3 = NewSlimTrie(encode.Dummy{}, big, nil)
+		}
 		a2, err4 := NewSlimTrie(encode.Dummy{}, k2, nil)
 		vAssert(err3 == nil && err4 == nil, "build-ok")
 		if err4 == nil {
